@@ -1,6 +1,7 @@
 package slog
 
 import (
+	"math"
 	"errors"
 	"strconv"
 	"strings"
@@ -157,7 +158,12 @@ func VH_C04B() {
 				return (v.kind == 'n' || v.kind == 's') && err == nil && got == f
 			}, ""}
 		case 7:
-			return NewAttr(key, complex(1, 2)), want{key, func(v vJ) bool { return v.kind == 's' }, ""}
+			c := []complex128{complex(1, 2), complex(1.5, math.Inf(1)), complex(1.5, math.NaN()), complex(-0.5, -2)}[vChoose(4)]
+			return NewAttr(key, c), want{key, func(v vJ) bool {
+				got, err := strconv.ParseComplex(v.str, 128)
+				same := func(a, b float64) bool { return a == b || (a != a && b != b) }
+				return v.kind == 's' && err == nil && same(real(got), real(c)) && same(imag(got), imag(c))
+			}, ""}
 		case 8:
 			d := []time.Duration{1500 * time.Millisecond, 1, 90061000000001, -1500 * time.Millisecond}[vChoose(4)]
 			return NewAttr(key, d), want{key, func(v vJ) bool { return vSameDuration(v, d) }, ""}
